@@ -139,6 +139,10 @@ func (x *runner) one(n *s2t.Node, class string) {
 // showNode renders the logical tree in Show's syntax (never "#", EmptyItem children as Go
 // would decode them is not applicable: such trees never reach this point).
 func showNode(n *s2t.Node, sb *strings.Builder) {
+	if n.Kind == 'R' {
+		showNode(n.Kids[0], sb)
+		return
+	}
 	g := n.Gen
 	n.Gen = false
 	if n.Kind == 'L' {
@@ -252,7 +256,7 @@ func perturb(n *s2t.Node, r *rand.Rand) *s2t.Node {
 // and false for a tree that differs in one respect.  Case line:  Q <tree> | <tree'> | <equal>
 func (x *runner) equalCases(n *s2t.Node) {
 	c := x.c
-	if n.HasEmptyChild() || n.Nodes() > 400 || n.Gen {
+	if n.HasEmptyChild() || n.Nodes() > 400 || n.Gen || n.HasDecoded() {
 		return
 	}
 	a := s2t.Build(n, x.r, func(string) {})
@@ -306,9 +310,15 @@ func main() {
 	}
 	for i := 0; c.Sum.Evaluations < c.N; i++ {
 		switch k := r.Intn(20); {
-		case k < 12:
+		case k < 10:
 			b := 1 + r.Intn(40)
 			x.one(s2t.RandTree(r, &b, 6), "random-tree")
+		case k < 12:
+			b := 2 + r.Intn(30)
+			t := s2t.WithDecoded(s2t.RandTree(r, &b, 6), r, true)
+			if t.HasDecoded() {
+				x.one(t, "with-decoded-children")
+			}
 		case k < 15:
 			x.one(s2t.RandLeaf(r), "random-leaf")
 		case k < 17:
